@@ -8,11 +8,12 @@ for f in sorted(glob.glob(os.path.join(V, "seeded", "*", "meta.json"))):
     need = " ".join(m.get("needs_to_manifest", "").split())
     need = re.sub(r"[|`]", "", need)[:230]
     det = m.get("detected_by")
-    d = "**missed**" if not det else "%s (%s): %s" % (det["check"], det["tier"], re.sub(r"[|]", "", det["keys"].replace("  key: ", "").strip(" ;"))[:150])
+    d = ("*judged neutral*: " + m["judged"][:160]) if (not det and m.get("judged")) else "**missed**" if not det else "%s (%s): %s" % (det["check"], det["tier"], re.sub(r"[|]", "", det["keys"].replace("  key: ", "").strip(" ;"))[:150])
     rows.append("| `%s` | %s | %s | %s |" % (m["name"], m["property"], need, d))
 tab = "| seed | property | what it changes / needs to manifest (from the author's notes) | detected by (first keys) |\n|---|---|---|---|\n" + "\n".join(rows)
-n_det = sum(1 for r in rows if "**missed**" not in r)
-tab += "\n\n%d seeded changes stored, %d detected by the quick tier of the property's check.\n" % (len(rows), n_det)
+n_det = sum(1 for r in rows if "**missed**" not in r and "*judged neutral*" not in r)
+n_neu = sum(1 for r in rows if "*judged neutral*" in r)
+tab += "\n\n%d seeded changes stored, %d detected by the quick tier of a check (the property's own or a sibling's), %d judged not to violate the property (see 10.1), %d missed.\n" % (len(rows), n_det, n_neu, len(rows) - n_det - n_neu)
 p = os.path.join(V, "DESIGN.md"); s = open(p).read()
 s = re.sub(r"<!-- SEEDS-TABLE-BEGIN -->.*<!-- SEEDS-TABLE-END -->", "<!-- SEEDS-TABLE-BEGIN -->\n" + tab + "<!-- SEEDS-TABLE-END -->", s, flags=re.S)
 open(p, "w").write(s)
